@@ -235,12 +235,26 @@ func VHSetRangeProduct() {
 	na, nb := len(a.model), len(b.model)
 	if vChoose("which", 2) == 0 {
 		stop := vChoose("stop", na+2)
+		nestAt := vChoose("nestAt", na+1) // 0: never; else the callback reads the set during that invocation
 		calls := 0
 		var seen []int
 		vMapOrder(true)
 		a.set.Range(func(x int) bool {
 			calls++
 			seen = append(seen, x)
+			if calls == nestAt {
+				// read-only re-entrancy: membership, size, a complete nested Range, a Slice
+				vAssert(a.set.Has(x), "the member being enumerated is a member")
+				vAssert(a.set.Len() == na, "Len inside a Range callback")
+				inner := 0
+				a.set.Range(func(y int) bool {
+					inner++
+					vAssert(a.model[y], "a nested Range enumerates only members")
+					return true
+				})
+				vAssert(inner == na, "a Range nested inside a Range callback enumerates every member")
+				vAssert(len(a.set.Slice()) == na, "Slice inside a Range callback")
+			}
 			return calls < stop
 		})
 		want := na
